@@ -21,6 +21,7 @@ NOT_DECIDED = ["(L) xarray / pandas construction semantics, .sel by label, xr.co
 def run(ctx):
     sweep.row_pairing_rule(ctx, "C03.R1")
     sweep.dims_rule(ctx, "C03.R3")
+    sweep.row_labels_rule(ctx, "C03.R11")
     sweep.resources_rule(ctx, "C03.R4")
     sweep.forwarding_rule(ctx, "C03.R5")
     sweep.no_input_mutation_rule(ctx, "C03.R6")
